@@ -6,17 +6,18 @@ import vlib
 
 THEOREMS = {"Properties.C07": [
     "C07_prefilter_sound", "C07_cauchy_schwarz", "C07_entry_valid", "C07_hit_valid", "C07_scope",
-    "C07_k_monotone_partial", "C07_no_store_after_invalidate", "C07_hit_same_or_similar",
+    "C07_k_prefix_served", "C07_k_monotone", "C07_dist_lt_mono", "C07_k_monotone_ip", "C07_k_monotone_nonvacuous", "C07_no_store_after_invalidate", "C07_hit_same_or_similar",
     "C07_old_quantisation_saturates", "qcache_len_bound", "qcache_cap0_unbounded",
     "C07_oracle_premises_satisfiable", "C07_entry_valid_ip", "C07_engine_nonvacuous",
     "C07_interleaving_nonvacuous", "C07_prefilter_nonvacuous"]}
 
 PINS = {"Properties.C07": {
-    "_preamble": "From Coq Require Import QArith List NArith ZArith Bool Arith. From Kyro Require Import Model.QCache Proofs.QCacheProofs Proofs.QCacheInv Proofs.QCacheEngine Proofs.QCacheKnn. Import ListNotations. Open Scope Q_scope.",
+    "_preamble": "From Coq Require Import QArith List NArith ZArith Bool Arith Sorting.Sorted. From Kyro Require Import Model.QCache Proofs.QCacheProofs Proofs.QCacheInv Proofs.QCacheEngine Proofs.QCacheKnn. Import ListNotations. Open Scope Q_scope.",
     "C07_prefilter_sound": "forall (m : metric) (p : nat) (q x : vec) (w : Q), length q = length x -> can_affect m p q x w = false -> dist_le m q x w = false",
-    "C07_entry_valid": "forall (m : metric) (isd : vec -> vec -> Q -> Prop) (fresh_search : collection -> vec -> nat -> list result) (cfg : config), (forall c q k id d, In (id, d) (fresh_search c q k) -> exists v, c_get c id = Some v /\\ isd q v d) -> (forall c q k, (length (fresh_search c q k) <= k)%nat) -> (forall c q k id v, (1 <= k)%nat -> c_get c id = Some v -> ~ In id (map fst (fresh_search c q k)) -> length (fresh_search c q k) = k /\\ exists w, worst (fresh_search c q k) = Some w /\\ dist_lt m q v w = false) -> forall (ops : list eop) (e : entry), let st := erun (pre_m m) (dist_le m) fresh_search cfg einit ops in In e (s_entries (e_cache st)) -> Valid (dist_lt m) isd (e_coll st) e",
+    "C07_entry_valid": "forall (m : metric) (isd : vec -> vec -> Q -> Prop) (fresh_search : collection -> vec -> nat -> list result) (cfg : config), (forall c q k id d, In (id, d) (fresh_search c q k) -> exists v, c_get c id = Some v /\\ isd q v d) -> (forall c q k, (length (fresh_search c q k) <= k)%nat) -> (forall c q k, StronglySorted rle (fresh_search c q k)) -> (forall c q k id v, (1 <= k)%nat -> c_get c id = Some v -> ~ In id (map fst (fresh_search c q k)) -> length (fresh_search c q k) = k /\\ exists w, worst (fresh_search c q k) = Some w /\\ dist_lt m q v w = false) -> forall (ops : list eop) (e : entry), let st := erun (pre_m m) (dist_le m) fresh_search cfg einit ops in In e (s_entries (e_cache st)) -> Valid (dist_lt m) isd (e_coll st) e",
     "C07_scope": "forall (cfg : config) (ops : list op) (scope : N) (q : vec) (k : nat) (r : list result), let s := run_state cfg empty ops in snd (get_scoped cfg s scope q k) = Some r -> exists e, In e (s_entries s) /\\ e_scope e = scope /\\ (k <= e_kreq e)%nat /\\ r = firstn k (e_results e)",
     "C07_no_store_after_invalidate": "forall (pre dle : vec -> vec -> Q -> bool) (fresh_search : collection -> vec -> nat -> list result) (cfg : config) (evs : list iev) (s : istate), irun pre dle fresh_search cfg iinit evs = Some s -> forall out, In (true, out) (i_log s) -> out = SkippedGeneration",
+    "C07_k_monotone": "forall (m : metric) (isd : vec -> vec -> Q -> Prop) (fresh_search : collection -> vec -> nat -> list result) (cfg : config), (forall c q k id d, In (id, d) (fresh_search c q k) -> exists v, c_get c id = Some v /\\ isd q v d) -> (forall c q k, (length (fresh_search c q k) <= k)%nat) -> (forall c q k, StronglySorted rle (fresh_search c q k)) -> (forall c q k id v, (1 <= k)%nat -> c_get c id = Some v -> ~ In id (map fst (fresh_search c q k)) -> length (fresh_search c q k) = k /\\ exists w, worst (fresh_search c q k) = Some w /\\ dist_lt m q v w = false) -> (forall q v d w, isd q v d -> w <= d -> dist_lt m q v w = false) -> forall (ops : list eop) (scope : N) (q : vec) (k : nat) (r : list result) (st' : estate), let st := erun (pre_m m) (dist_le m) fresh_search cfg einit ops in (1 <= k)%nat -> estep (pre_m m) (dist_le m) fresh_search cfg st (ESearch scope q k) = (st', RHit r) -> exists e, In e (s_entries (e_cache st)) /\\ e_scope e = scope /\\ (k <= e_kreq e)%nat /\\ r = firstn k (e_results e) /\\ Valid (dist_lt m) isd (e_coll st) e /\\ Valid (dist_lt m) isd (e_coll st) (prefix_entry e k) /\\ e_results (prefix_entry e k) = r",
     "C07_entry_valid_ip": "forall (cfg : config) (ops : list eop) (e : entry), let st := erun (pre_m InnerProduct) (dist_le InnerProduct) ip_knn cfg einit ops in In e (s_entries (e_cache st)) -> Valid (dist_lt InnerProduct) ip_isd (e_coll st) e",
     "qcache_len_bound": "forall (cfg : config) (ops : list op), (1 <= c_cap cfg)%nat -> (length (s_entries (run_state cfg empty ops)) <= c_cap cfg)%nat",
 }}
@@ -64,7 +65,7 @@ def run(ctx):
         "named assumption (Model/QCache.v): the 64-bit SipHash of hash_embedding is injective on (len, list of hashed u32 patterns) — no 64-bit collision; the model key is the list of the VALUES whose bit patterns are hashed (round(32768 v) when finite in f32, else v); NaN/infinite query components are not modelled",
         "float gap: the model and the theorems are over exact rationals with every sqrt comparison squared (SQ comments in Model/QCache.v); the code computes norms, sqrt, the division and the running sums in f32. Correspondence inputs are on dyadic grids where all sums are exact and pools whose decisions would hinge on a sqrt/division rounding are regenerated (counted); the prefilter's rounding gap at the bound is MEASURED by the near-boundary stream against exact rationals (tolerance 1e-6*max(1,|w|)), not proved",
         "hooks H5 (cfg kyrodb_verif): verif_hash_embedding, verif_insert_can_affect_cached_boundary (recomputes the embedding stats exactly as invalidate_for_insert does)",
-        "oracle premises of C07_entry_valid/C07_hit_valid (O_live, O_len, O_omit; shown satisfiable by an executable exact k-NN in C07_oracle_premises_satisfiable): the uncached hot+cold search is an exact k-NN reporting the current distance of live documents (HNSW recall is C06/C16 territory; tiny collections in the engine stream make it exhaustive); QueryHashCache::distance and the index report the same distance for the same pair",
+        "oracle premises of C07_entry_valid/C07_hit_valid (O_live, O_len, O_sorted, O_omit, plus for C07_k_monotone the link 'a document reported at distance d is not strictly inside any boundary w <= d'; all shown satisfiable by an executable exact k-NN in C07_oracle_premises_satisfiable): the uncached hot+cold search is an exact k-NN reporting the current distance of live documents (HNSW recall is C06/C16 territory; tiny collections in the engine stream make it exhaustive); QueryHashCache::distance and the index report the same distance for the same pair",
         "engine model: vectors already normalised (cosine/inner product normalisation is idempotent — C02's hypothesis); statistics, cached_at and non-finite floats are not modelled; each cache method is one atomic step (state RwLock) and an invalidation is 'bump generation, then remove under the lock'",
         "engine-level stream E uses the Euclidean metric and similarity threshold 1.0 so that a hit is always the entry of the identical query (a similarity hit serves another query's list by design, see C07_hit_same_or_similar); components range up to 7 (outside the unit box)",
     ]
